@@ -2,7 +2,8 @@
 # seeded_regress.sh [pattern] — re-evaluates every confirmed seeded change under /verif/seeded against the quick check of
 # its own property, in the scratch worktree (never in /repo). Prints one line per change; exit 1 if a change that is
 # expected to be caught is missed. r2-C04-B is the documented non-detection; r5-C04-A became behaviour-neutral when the
-# defect it relied on was fixed (6af316e).
+# defect it relied on was fixed (6af316e), r6-C12-A (the ENCODER writes several gzip members for very long lists) when
+# the decoder learnt to read such lists (fb98e14).
 set -u
 cd "$(dirname "$0")/.."
 PAT="${1:-}"
@@ -21,6 +22,7 @@ for d in seeded/*/; do
   if [ "$rc" != "1" ]; then
     if [ "$id" = "r2-C04-B" ]; then status="not-caught(documented)";
     elif [ "$id" = "r5-C04-A" ]; then status="neutral-since-fix-6af316e(documented)";
+    elif [ "$id" = "r6-C12-A" ]; then status="neutral-since-fix-fb98e14(documented)";
     else status="MISSED(rc=$rc)"; miss=1; fi
   fi
   echo "$id $prop $status $(echo "$out" | sed -E 's/.*(invariant=[^ ]+ signature=[^ ]+).*/\1/' | cut -c1-150)"
